@@ -1042,4 +1042,99 @@ theorem over_eq_gt_floor (n r iv : Int) : over n r iv = decide (n > (r * iv) / 1
   rw [decide_eq_decide]
   omega
 
+/-! ## concurrent first contact of one group (rate 0): atomic sections of `Quota.Blocked`
+
+Threads are sequences of atomic actions on a shared state: a heap of buckets (remaining tokens), the cache slot
+of the group's key, a per-thread local limiter reference.  `acq` is the critical section of the code as it is
+(`q.mu.Lock … cache.Get / NewLimiter + cache.Add … q.mu.Unlock`: get-or-create, atomic); `alw` is
+`limiter.Allow()` (atomic under the limiter's own mutex).  `look` / `create` are the two halves of a
+check-then-act variant (lookup in one critical section, create + Add in another). -/
+
+inductive CAct where
+  | acq (i : Nat) | alw (i : Nat) | look (i : Nat) | create (i : Nat)
+  deriving DecidableEq, Repr
+
+structure CState where
+  heap    : List Nat
+  cache   : Option Nat
+  loc     : Nat → Option Nat
+  allowed : Nat
+
+def CState.init : CState := { heap := [], cache := none, loc := fun _ => none, allowed := 0 }
+
+def setLoc (loc : Nat → Option Nat) (i : Nat) (v : Option Nat) : Nat → Option Nat :=
+  fun j => if j = i then v else loc j
+
+def cstep (burst : Nat) (s : CState) : CAct → CState
+  | .acq i =>
+    match s.cache with
+    | some k => { s with loc := setLoc s.loc i (some k) }
+    | none => { s with heap := s.heap ++ [burst], cache := some s.heap.length, loc := setLoc s.loc i (some s.heap.length) }
+  | .alw i =>
+    match s.loc i with
+    | some k => if s.heap.getD k 0 > 0 then { s with heap := s.heap.set k (s.heap.getD k 0 - 1), allowed := s.allowed + 1 } else s
+    | none => s
+  | .look i => { s with loc := setLoc s.loc i s.cache }
+  | .create i =>
+    match s.loc i with
+    | some _ => s
+    | none => { s with heap := s.heap ++ [burst], cache := some s.heap.length, loc := setLoc s.loc i (some s.heap.length) }
+
+def crun (burst : Nat) (s : CState) (sched : List CAct) : CState := sched.foldl (cstep burst) s
+
+def CAct.atomic : CAct → Bool
+  | .acq _ | .alw _ => true
+  | _ => false
+
+/-- invariant of the atomic-section system: at most one bucket ever exists for the group -/
+def CInv (burst : Nat) (s : CState) : Prop :=
+  (s.cache = none ∧ s.heap = [] ∧ s.allowed = 0 ∧ ∀ i, s.loc i = none) ∨
+  (∃ r, s.cache = some 0 ∧ s.heap = [r] ∧ s.allowed + r = burst ∧ ∀ i, s.loc i = none ∨ s.loc i = some 0)
+
+theorem cinv_step (burst : Nat) (s : CState) (a : CAct) (ha : a.atomic = true) (h : CInv burst s) :
+    CInv burst (cstep burst s a) := by
+  cases a with
+  | look i => cases ha
+  | create i => cases ha
+  | acq i =>
+    rcases h with ⟨hc, hh, hal, hl⟩ | ⟨r, hc, hh, hal, hl⟩
+    · right
+      refine ⟨burst, ?_⟩
+      simp only [cstep, hc, hh, List.nil_append, List.length_nil]
+      refine ⟨trivial, trivial, by omega, ?_⟩
+      intro j; unfold setLoc; by_cases hj : j = i <;> simp [hj, hl j]
+    · right
+      refine ⟨r, ?_⟩
+      simp only [cstep, hc]
+      refine ⟨trivial, hh, hal, ?_⟩
+      intro j; unfold setLoc; by_cases hj : j = i
+      · simp [hj]
+      · simp only [hj, if_false]; exact hl j
+  | alw i =>
+    rcases h with ⟨hc, hh, hal, hl⟩ | ⟨r, hc, hh, hal, hl⟩
+    · left
+      simp only [cstep, hl i]
+      exact ⟨hc, hh, hal, hl⟩
+    · rcases hl i with hn | hs
+      · right; refine ⟨r, ?_⟩; simp only [cstep, hn]; exact ⟨hc, hh, hal, hl⟩
+      · right
+        simp only [cstep, hs, hh, List.getD_cons_zero]
+        by_cases hr : r > 0
+        · refine ⟨r - 1, ?_⟩
+          simp only [hr, if_true, List.set_cons_zero]
+          exact ⟨hc, trivial, by omega, hl⟩
+        · refine ⟨r, ?_⟩
+          simp only [hr, if_false]
+          exact ⟨hc, hh, hal, hl⟩
+
+theorem cinv_run (burst : Nat) : ∀ (sched : List CAct) (s : CState), (∀ a ∈ sched, a.atomic = true) → CInv burst s →
+    CInv burst (crun burst s sched) := by
+  intro sched
+  induction sched with
+  | nil => intro s _ h; exact h
+  | cons a r ih =>
+    intro s ha h
+    exact ih _ (fun b hb => ha b (by simp [hb])) (cinv_step burst s a (ha a (by simp)) h)
+
+
 end Gate.C34
